@@ -98,6 +98,48 @@ theorem export_bystander_unaffected_quic (prior : Prior) (args : Args) (o : Opts
   simp only [vlab_zero, Bool.not_not] at this
   exact this
 
+section File
+open TLX.Ingest
+
+/-- **… file to file.** `capC`: a capture the run reads to the end (`hC`); `capB`: a capture file, either container, whose
+    reader delivers the same items without the victim's packet blocks (`hsel`: `keepIt` keeps every secrets block and
+    exactly the packet blocks of the frames that are not the victim's). Then `capB` is read to the end too, the run on `capB`
+    hands the writer its TLS blocks followed by its QUIC blocks, and these blocks stand intact and in order among the blocks
+    of the run on `capC`: every bystander conversation, TLS or QUIC, exports the same frames from both files. -/
+theorem export_bystander_unaffected_quic_file (prior : Prior) (args : Args) (o : Opts) (ho : optsOf args = some o)
+    (legacy legacy' : Bool) (kl : Option Keylog.Str) (capC capB : Bytes) (its : List Container.Item)
+    (keepIt : Container.Item → Bool) (victim : Pkt → Bool)
+    (hrC : Container.readPrefix legacy capC = .ok (its, none))
+    (hrB : Container.readPrefix legacy' capB = .ok (its.filter keepIt, none))
+    (X : List (Item Keylog.Key)) (IS : List (Nat × Pipeline.Info))
+    (hC : go Keylog.srcHexClass args.checksumTest 0 its = .ok (X, IS))
+    (hsel : ∀ ix ∈ its.zip X, keepIt ix.1 = itemKeep (fun p => !victim p) ix.2)
+    (hflow : ∀ a ∈ tcpView o (only (fun p => !victim p) X), ∀ b ∈ tcpView o (victimFrames victim X), sameFlow a b = false)
+    (hBV : CaptureSeparated (quicMachine mask H P (Ingest.lookup IS)) o
+      (cls (fun x : QIn Keylog.Key => vlab victim x.p) 0 (quicView o ((fileKeysOf kl).getD []) X))
+      (rest (fun x : QIn Keylog.Key => vlab victim x.p) 0 (quicView o ((fileKeysOf kl).getD []) X)))
+    (hVB : CaptureSeparated (quicMachine mask H P (Ingest.lookup IS)) o
+      (cls (fun x : QIn Keylog.Key => vlab victim x.p) 1 (quicView o ((fileKeysOf kl).getD []) X))
+      (rest (fun x : QIn Keylog.Key => vlab victim x.p) 1 (quicView o ((fileKeysOf kl).getD []) X))) :
+    ∃ XB ISB tlsB quicB,
+      Ingest.itemsWith Keylog.srcHexClass args.checksumTest legacy capC = .ok (X, IS) ∧
+      Ingest.itemsWith Keylog.srcHexClass args.checksumTest legacy' capB = .ok (XB, ISB) ∧
+      framesFrom mask H P prior args (fileKeysOf kl) XB (Ingest.lookup ISB) = .ok (tlsB.flatten ++ quicB.flatten) ∧
+      framesFrom mask H P prior args (fileKeysOf kl) X (Ingest.lookup IS) =
+        .ok ((tlsFrames H P (Ingest.lookup IS) o (fileKeysOf kl) X).flatten ++
+             (quicFrames mask H P (Ingest.lookup IS) o (fileKeysOf kl) X).flatten) ∧
+      Merge tlsB ((tlsConvs H P (Ingest.lookup IS) o (victimFrames victim X)).map
+          (convFrames H P (Ingest.lookup IS) (keysOf (fileKeysOf kl) X))) (tlsFrames H P (Ingest.lookup IS) o (fileKeysOf kl) X) ∧
+      Merge quicB (quicFrames mask H P (Ingest.lookup IS) o (fileKeysOf kl) (only victim X))
+        (quicFrames mask H P (Ingest.lookup IS) o (fileKeysOf kl) X) := by
+  obtain ⟨XB, ISB, h1, h2, h3⟩ := export_demux_file mask H P prior args legacy legacy' kl capC capB its keepIt
+    (fun p => !victim p) hrC hrB X IS hC hsel
+  obtain ⟨b1, b2, b3, b4⟩ := export_bystander_unaffected_quic mask H P (Ingest.lookup IS) prior args o ho (fileKeysOf kl) X
+    victim hflow hBV hVB
+  exact ⟨XB, ISB, _, _, h1, h2, h3.trans b2, b1, b3, b4⟩
+
+end File
+
 end Bystanders
 
 end TLX.Props.ExportFaults
